@@ -159,7 +159,7 @@ def run (args : List String) : String :=
       else s!"send=ok packets={total}"
     | _, _ => "bad-op"
   | ["closed-ops", _] =>
-    "close=ok next=closed until=closed queue=closed flush=closed send=closed late=closed written=0"
+    "close=ok next=closed until=closed queue=closed flush=closed send=closed late=closed latewrite=ok written=0"
   | ["double-close", _] => if closeChecksClosedFirst then "close=ok close2=closed" else "close=ok panic"
   | ["conn-close", n, _] =>
     match n.toNat? with
@@ -182,6 +182,10 @@ def run (args : List String) : String :=
       let s0 : Sys := { cap := 10, fill := min n 10, pending := (if n > 10 then 1 else 0), r := .holding, c := .waiting }
       closeRun closeDrainsWhileLocking (measure s0 + 1) s0
     | none => "bad-op"
+  | ["abandon-close", _] =>
+    -- the cleanup loop after a callback error ends at the first error of NextPackage, and a closed
+    -- channel answers at once: the call returns the callback's error
+    "until=err"
   | ["reader-exit-unknown", _, _] | ["reader-exit-unknown", _] => if readerErrSendsGuarded then "connclose=ok reader=ended" else "connclose=ok reader=ended|connclose=ok reader=alive"
   | ["reader-exit", _] => if readerErrSendsGuarded then "connclose=ok reader=ended" else "connclose=ok reader=ended|connclose=ok reader=alive"
   | _ => "bad-op"
